@@ -1,2 +1,208 @@
-(* C15 — property theorems (placeholder until Proofs/Oms.v lands) *)
-From Verif Require Import Prelude Model.Spectrum Model.Oms.
+(* C15 — every designed network yields a consistent OMS partition and spectrum map.
+   Property theorems about the model Verif.Model.Oms (statements in full; proofs in Proofs/Oms.v). *)
+From Coq Require Import QArith.
+From Verif Require Import Prelude Model.Spectrum Model.Oms Proofs.Oms.
+Local Open Scope Z_scope.
+
+(* ---------------------------------------------------------------- slot <-> frequency *)
+(* over exact rationals, any non-zero grid, any n *)
+Theorem n_freq_roundtrip : forall (n : Z) (grid : Q),
+  ~ (grid == 0)%Q -> frequency_to_n (nvalue_to_frequency n grid) grid = n.
+Proof. exact Proofs.Oms.n_freq_roundtrip. Qed.
+Print Assumptions n_freq_roundtrip.
+
+(* IEEE doubles (PrimFloat), FINITE statement: the 8001 slot numbers -4000..4000 on the 6.25 GHz grid *)
+Theorem n_freq_roundtrip_float : forall n : Z, -4000 <= n <= 4000 ->
+  F.frequency_to_n (F.nvalue_to_frequency n (F.of_Z 6250000000)) (F.of_Z 6250000000) = n.
+Proof. exact Proofs.Oms.n_freq_roundtrip_float. Qed.
+Print Assumptions n_freq_roundtrip_float.
+
+Theorem slots_roundtrip : forall n m : Z,
+  slots_to_m (fst (mvalue_to_slots n m)) (snd (mvalue_to_slots n m)) = (n, m).
+Proof. exact Proofs.Oms.slots_roundtrip. Qed.
+Print Assumptions slots_roundtrip.
+
+(* the other direction needs an even number of slots: stopn = startn + 2m - 1 *)
+Theorem slots_roundtrip_inv : forall a m : Z,
+  let b := a + 2 * m - 1 in
+  mvalue_to_slots (fst (slots_to_m a b)) (snd (slots_to_m a b)) = (a, b).
+Proof. exact Proofs.Oms.slots_roundtrip_inv. Qed.
+Print Assumptions slots_roundtrip_inv.
+
+(* ---------------------------------------------------------------- create_oms_bitmap *)
+(* sorted disjoint common bands inside [f_min, f_max] whose facing edges fall into different slots: the map has
+   one cell per slot of n_min..n_max, and cell n is FREE iff n lies in the slot range of some band *)
+Theorem bitmap_len : forall (grid f_min f_max : Q) (common : list band),
+  (0 < grid)%Q -> sorted_in f_min f_max common -> slot_apart grid common ->
+  exists c, create_oms_bitmap common f_min f_max grid = Ok c /\
+            Z.of_nat (length c) = frequency_to_n f_max grid - frequency_to_n f_min grid + 1 /\
+            forall n, frequency_to_n f_min grid <= n <= frequency_to_n f_max grid ->
+                      znth c (n - frequency_to_n f_min grid) =
+                      Some (if in_slots (map (band_slots grid) common) n then SF else SU).
+Proof. exact Proofs.Oms.bitmap_len. Qed.
+Print Assumptions bitmap_len.
+
+(* full statement without the slot-level separation ("every sorted disjoint common range inside [f_min, f_max]")
+   is FALSE of the faithful model: two bands 2 GHz apart inside one slot give one cell too many *)
+Theorem bitmap_len_touching_refuted :
+  exists grid f_min f_max common c,
+    (0 < grid)%Q /\ sorted_in f_min f_max common /\ create_oms_bitmap common f_min f_max grid = Ok c /\
+    Z.of_nat (length c) <> frequency_to_n f_max grid - frequency_to_n f_min grid + 1.
+Proof. exact Proofs.Oms.bitmap_len_touching_refuted. Qed.
+Print Assumptions bitmap_len_touching_refuted.
+
+(* grid-aligned band edges: sorted disjoint is enough, and FREE <-> the slot's nominal frequency lies inside a band *)
+Theorem bitmap_marks : forall (grid f_min f_max : Q) (common : list band),
+  (0 < grid)%Q -> sorted_in f_min f_max common ->
+  Forall (fun b => on_grid grid (fst b) /\ on_grid grid (snd b)) common ->
+  exists c, create_oms_bitmap common f_min f_max grid = Ok c /\
+            Z.of_nat (length c) = frequency_to_n f_max grid - frequency_to_n f_min grid + 1 /\
+            forall n, frequency_to_n f_min grid <= n <= frequency_to_n f_max grid ->
+                      znth c (n - frequency_to_n f_min grid) = Some (if in_bands grid common n then SF else SU).
+Proof. exact Proofs.Oms.bitmap_marks. Qed.
+Print Assumptions bitmap_marks.
+
+Example bitmap_marks_nonvacuous :
+  exists grid f_min f_max common,
+    (0 < grid)%Q /\ sorted_in f_min f_max common /\
+    Forall (fun b => on_grid grid (fst b) /\ on_grid grid (snd b)) common /\ length common = 2%nat /\
+    create_oms_bitmap common f_min f_max grid = Ok (rep SU 8 ++ rep SF 5 ++ rep SU 3 ++ rep SF 9 ++ rep SU 2).
+Proof.
+  exists default_grid, (nvalue_to_frequency (-10) default_grid), (nvalue_to_frequency 16 default_grid),
+         [(nvalue_to_frequency (-2) default_grid, nvalue_to_frequency 2 default_grid);
+          (nvalue_to_frequency 6 default_grid, nvalue_to_frequency 14 default_grid)].
+  split; [reflexivity|]. split; [cbn; repeat split; discriminate|]. split.
+  - repeat constructor; cbn [fst snd]; eexists; reflexivity.
+  - split; [reflexivity|vm_compute; reflexivity].
+Qed.
+
+(* ---------------------------------------------------------------- Bitmap / align_grids *)
+Theorem mk_bitmap_ok : forall f_min f_max grid gbd : Q,
+  (0 < grid)%Q -> (f_min <= f_max)%Q ->
+  exists b, mk_bitmap f_min f_max grid gbd None = Ok b /\ bwf b /\ n_min b <= n_max b.
+Proof. exact Proofs.Oms.mk_bitmap_ok. Qed.
+Print Assumptions mk_bitmap_ok.
+
+(* for ALL non-empty lists of well-formed maps (contiguous index, one cell per index) of arbitrary extents:
+   every map ends up on the common extent (min n_min, max n_max), its index is range(min, max+1) hence without
+   repetition, every old cell is found at the same slot number, every new cell is OCCUPIED, guard indices untouched *)
+Theorem align_spec : forall l : list bitmap,
+  l <> [] -> Forall bwf l ->
+  exists l', align_grids l = Ok l' /\ Forall2 (aligned (ext_min l) (ext_max l)) l l' /\
+             (forall b, In b l -> ext_min l <= n_min b /\ n_max b <= ext_max l) /\
+             (exists b, In b l /\ n_min b = ext_min l) /\ (exists b, In b l /\ n_max b = ext_max l).
+Proof. exact Proofs.Oms.align_spec. Qed.
+Print Assumptions align_spec.
+
+Example align_spec_nonvacuous :
+  let l := [mkB (-3) 2 1 (-2) 4 (zrange (-3) 3) [SF; SO; SF; SF; SU; SU];
+            mkB 0 7 4 3 4 (zrange 0 8) (rep SF 8);
+            mkB (-5) (-1) (-1) (-5) 4 (zrange (-5) 0) [SU; SF; SO; SO; SF]] in
+  Forall bwf l /\ ext_min l = -5 /\ ext_max l = 7 /\
+  option_map (map cells) (match align_grids l with Ok x => Some x | Err _ => None end) =
+  Some [[SO; SO; SF; SO; SF; SF; SU; SU; SO; SO; SO; SO; SO];
+        [SO; SO; SO; SO; SO; SF; SF; SF; SF; SF; SF; SF; SF];
+        [SU; SF; SO; SO; SF; SO; SO; SO; SO; SO; SO; SO; SO]].
+Proof.
+  cbv zeta. split; [|vm_compute; auto].
+  repeat constructor; vm_compute; congruence.
+Qed.
+
+(* the well-formedness premise cannot be dropped: a degenerate map (n_max < n_min - 1) breaks the index *)
+Theorem align_needs_wf :
+  exists l l', align_grids l = Ok l' /\ Forall (fun b => idx b = zrange (n_min b) (n_max b + 1)) l /\
+               ~ Forall (fun b => NoDup (idx b) /\ idx b = zrange (n_min b) (n_max b + 1)) l'.
+Proof. exact Proofs.Oms.align_needs_wf. Qed.
+Print Assumptions align_needs_wf.
+
+(* all maps built for one network (same f_min, f_max) cover the same slots n_min..n_max, once each *)
+Theorem same_extent : forall (f_min f_max : Q) (commons : list (list band)) (l : list bitmap),
+  oms_maps f_min f_max commons = Ok l ->
+  length l = length commons /\
+  Forall (fun b => n_min b = frequency_to_n f_min default_grid /\ n_max b = frequency_to_n f_max default_grid /\
+                   idx b = zrange (n_min b) (n_max b + 1) /\ NoDup (idx b) /\
+                   length (cells b) = length (idx b)) l.
+Proof. exact Proofs.Oms.same_extent. Qed.
+Print Assumptions same_extent.
+
+(* ---------------------------------------------------------------- OMS partition *)
+Theorem chain_wf_b_sound : forall (g : graph) (d : list line), chain_wf_b g d = true -> chain_wf g d.
+Proof. exact Proofs.Oms.chain_wf_b_sound. Qed.
+Print Assumptions chain_wf_b_sound.
+
+(* chain-structured graph (disjoint ROADM-to-ROADM lines d covering every line element): the OMS list is exactly
+   the lines in visiting order; every line element occurs exactly once among the OMS interiors; every OMS runs
+   from a ROADM to the next ROADM over non-ROADM, non-transceiver elements along edges of the graph *)
+Theorem oms_partition : forall (g : graph) (d : list line),
+  chain_wf g d ->
+  exists L, build_oms_els g = Ok L /\ L = map line_path d /\
+    (forall n, In n g -> is_line_node n = true -> count_occ Z.eq_dec (flat_map interior L) (uid n) = 1%nat) /\
+    Forall (fun el => exists a els b, el = a :: els ++ [b] /\
+                      is_kind g KRoadm a = true /\ is_kind g KRoadm b = true /\
+                      Forall (fun u => is_kind g KRoadm u = false /\ is_kind g KTrx u = false) els /\
+                      path g el) L.
+Proof. exact Proofs.Oms.oms_partition. Qed.
+Print Assumptions oms_partition.
+
+(* OMS i (A -> B) is paired with the FIRST OMS running B -> A, with nothing iff there is none; without parallel
+   lines (no two OMS with the same ordered ends) the pairing is symmetric *)
+Theorem reversed_pairing : forall d : list line,
+  exists rv, reversed_oms (map line_path d) = Ok rv /\ length rv = length d /\
+    (forall i a b, nth_error (pair_ends d) i = Some (a, b) ->
+       exists r, nth_error rv i = Some r /\
+       match r with
+       | Some j => 0 <= j /\ nth_error (pair_ends d) (Z.to_nat j) = Some (b, a) /\
+                   forall k, (k < Z.to_nat j)%nat -> nth_error (pair_ends d) k <> Some (b, a)
+       | None => ~ In (b, a) (pair_ends d)
+       end) /\
+    (NoDup (pair_ends d) ->
+     forall i j, nth_error rv i = Some (Some (Z.of_nat j)) -> nth_error rv j = Some (Some (Z.of_nat i))).
+Proof. exact Proofs.Oms.reversed_pairing. Qed.
+Print Assumptions reversed_pairing.
+
+(* ---------------------------------------------------------------- the whole build_oms_list *)
+(* chain-structured network with at least one line, some amplifier band, and on every line a common range that is
+   sorted, disjoint, inside the network range and slot-separated: build_oms_list succeeds, returns the lines as
+   OMS, pairs them as reversed_pairing says, and every map covers n(f_min)..n(f_max) once, FREE exactly on the
+   slots of the line's common band(s) and UNUSABLE elsewhere *)
+Theorem build_oms_list_ok : forall (g : graph) (si : band) (d : list line) (fmin fmax : Q),
+  chain_wf g d -> d <> [] -> find_network_freq_range g = Ok (fmin, fmax) ->
+  Forall (fun l => common_ok g si fmin fmax (line_path l)) d ->
+  exists r rv, build_oms_list g si = Ok r /\
+    map el_ids r = map line_path d /\
+    reversed_oms (map line_path d) = Ok rv /\ map rev_id r = rv /\
+    Forall2 (map_ok g si fmin fmax) d (map smap r).
+Proof. exact Proofs.Oms.build_oms_list_ok. Qed.
+Print Assumptions build_oms_list_ok.
+
+(* its hypotheses are decidable; the check evaluates net_hyps_b on every designed network it explores *)
+Theorem net_hyps_b_sound : forall (g : graph) (si : band) (d : list line),
+  net_hyps_b g si d = true ->
+  exists fmin fmax, chain_wf g d /\ d <> [] /\ find_network_freq_range g = Ok (fmin, fmax) /\
+                    Forall (fun l => common_ok g si fmin fmax (line_path l)) d.
+Proof. exact Proofs.Oms.net_hyps_b_sound. Qed.
+Print Assumptions net_hyps_b_sound.
+
+(* two ROADMs, C-band line 0 -> 1, C+L line 1 -> 0 with a narrower pre-amplifier: three different layouts *)
+Example build_oms_list_nonvacuous :
+  let c := ((191300000000000 # 1), (196100000000000 # 1)) in
+  let l := ((186000000000000 # 1), (190000000000000 # 1)) in
+  let cn := ((192000000000000 # 1), (195000000000000 # 1)) in
+  let g := [mkN 0 KRoadm [10; 2] []; mkN 1 KRoadm [4; 11] []; mkN 10 KTrx [0] []; mkN 11 KTrx [1] [];
+            mkN 2 KAmp [3] [c]; mkN 3 KOther [1] [];
+            mkN 4 KAmp [5] [c; l]; mkN 5 KOther [6] []; mkN 6 KAmp [0] [l; cn]] in
+  let d := [mkL 0 [2; 3] 1; mkL 1 [4; 5; 6] 0] in
+  net_hyps_b g (c) d = true /\
+  match build_oms_list g c with
+  | Ok r => map el_ids r = [[0; 2; 3; 1]; [1; 4; 5; 6; 0]] /\ map rev_id r = [Some 1; Some 0] /\
+            map (fun o => (n_min (smap o), n_max (smap o))) r = [(-1136, 480); (-1136, 480)]
+  | Err _ => False
+  end.
+Proof. cbv zeta. split; vm_compute; auto. Qed.
+
+(* "the OMS list can be built" is FALSE of the faithful model when the amplifiers of one OMS share no band
+   (C-band booster, L-band pre-amplifier on one line): create_oms_bitmap indexes an empty common range *)
+Theorem build_empty_common_refuted :
+  exists g si d, chain_wf g d /\ build_oms_list g si = Err "IndexError:common_range".
+Proof. exact Proofs.Oms.build_empty_common_refuted. Qed.
+Print Assumptions build_empty_common_refuted.
